@@ -102,7 +102,7 @@ class Driver:
                     return None  # EOF: child died
                 self.buf += chunk
 
-    def call(self, req, watchdog=None):
+    def call(self, req, watchdog=None, auto_guard=None):
         """Returns the response dict. Always contains exactly one of: ok, err, panic, drv_err, alloc_guard, death, timeout."""
         if self.p is None or self.p.poll() is not None:
             self._start()
@@ -110,7 +110,12 @@ class Driver:
         self.next_id += 1
         req = dict(req)
         req["id"] = rid
-        data = (json.dumps(req, separators=(",", ":")) + "\n").encode()
+        js = json.dumps(req, separators=(",", ":"))
+        if auto_guard is not None and "guard" not in req:
+            # default allocation guard: generous for every legitimate operation (a fixed base plus a multiple of the request size), but it
+            # turns a declared-length allocation bomb into a deterministic observation instead of a multi-GiB memset
+            js = js[:-1] + ',"guard":%d}' % (auto_guard[0] + auto_guard[1] * len(js))
+        data = (js + "\n").encode()
         try:
             self.p.stdin.write(data)
             self.p.stdin.flush()
